@@ -48,6 +48,7 @@ fn apply_size(c: &mut Cfg, t: Tok, sz: Sz) {
     c.senders = vec![A, B];
     c.send_toks = vec![t];
     c.send_amounts = (1..=sz.a).collect();
+    c.recv_memos = vec!["x"];
     c.fault_bound = sz.faults;
     c.max_inflight = sz.inflight;
     if sz.rich {
@@ -150,6 +151,7 @@ fn v1_cfg(name: &str, version: &'static str, thorough: bool) -> Cfg {
         // a send still in flight at migration time: escrowed, but not yet counted by the old logic
         inflight: vec![(A, T1, 1)],
         counted_b: vec![],
+        drained: vec![],
         may_refuse: false,
     });
     c.first_migrate = vec![None, Some(2)];
@@ -190,6 +192,7 @@ fn v2_cfg(name: &str, thorough: bool) -> Cfg {
         counted: vec![(N0, 1), (T1, 1)],
         inflight: vec![(A, N0, 1), (A, T1, 1)],
         counted_b: vec![],
+        drained: vec![],
         may_refuse: false,
     });
     c.first_migrate = vec![None, Some(2)];
@@ -225,6 +228,7 @@ fn v2_two_channels_cfg(name: &str) -> Cfg {
         counted: vec![(N0, 2), (T1, 1)],
         inflight: vec![],
         counted_b: vec![(N0, 1), (T1, 1)],
+        drained: vec![],
         may_refuse: true,
     });
     c.first_migrate = vec![None, Some(2)];
@@ -238,6 +242,52 @@ fn v2_two_channels_cfg(name: &str) -> Cfg {
     c.fault_bound = 1;
     c.fault_kinds = vec![Fault::Reject, Fault::Gas];
     c.raws = vec![0];
+    c
+}
+
+/// 0.13.0-stamped (or v1) storage whose ucosm entry exists with outstanding 0 (2 sent, 2 redeemed back)
+/// while one more ucosm send is still in flight
+fn drained_cfg(name: &str, version: &'static str, v1: bool) -> Cfg {
+    let mut c = Cfg::base(name);
+    c.channels = 1;
+    c.old = Some(Old {
+        version,
+        v1,
+        counted: vec![],
+        inflight: vec![(A, N0, 1)],
+        counted_b: vec![],
+        drained: vec![(N0, 2)],
+        may_refuse: false,
+    });
+    c.first_migrate = vec![None, Some(2)];
+    c.funds = vec![(A, N0, 1)];
+    c.senders = vec![A];
+    c.send_toks = vec![N0];
+    c.send_amounts = vec![1];
+    c.proper = vec![Base::Tok(N0)];
+    c.bad = vec![Den::Foreign(Base::Tok(N0))];
+    c.recv_amounts = vec![1, 2];
+    c.fault_bound = 1;
+    c.fault_kinds = vec![Fault::Reject];
+    c.raws = vec![0];
+    c
+}
+
+/// two channels escrowing the same denomination in amounts at the u64 boundary
+fn u64_two_channels_cfg(name: &str) -> Cfg {
+    let mut c = Cfg::base(name);
+    c.channels = 2;
+    c.funds = vec![(A, N0, 2 * U64MAX)];
+    c.senders = vec![A];
+    c.send_toks = vec![N0];
+    // no small amounts here: with 2^65 tokens they would make the space astronomically large
+    c.send_amounts = vec![U64MAX];
+    c.proper = vec![Base::Tok(N0)];
+    c.recv_amounts = vec![U64MAX, U64MAX + 1, 2 * U64MAX];
+    c.receivers = vec![Rcv::User(B)];
+    c.bad = vec![];
+    c.bad_amounts = vec![];
+    c.raws = vec![];
     c
 }
 
@@ -268,6 +318,8 @@ fn configs(prop: &str, thorough: bool) -> Vec<(Cfg, Option<usize>)> {
                 v.push(v2_cfg("C11/upgrade/v2-0.13.0-inflight", true));
             }
             v.push(v2_two_channels_cfg("C11/upgrade/v2-0.13.0-two-channels-same-denoms"));
+            v.push(drained_cfg("C11/upgrade/v2-0.13.0-drained-denom-with-send-in-flight", "0.13.0", false));
+            v.push(u64_two_channels_cfg("C11/edge/u64-boundary/2ch-same-denom"));
             for mut c in v {
                 c.props = p.clone();
                 out.push((c, None));
@@ -312,6 +364,8 @@ fn configs(prop: &str, thorough: bool) -> Vec<(Cfg, Option<usize>)> {
             v.push(v1_cfg("C12/upgrade/v1-0.12.0-alpha1", "0.12.0-alpha1", thorough));
             v.push(v2_cfg("C12/upgrade/v2-0.13.0-inflight", thorough));
             v.push(v2_two_channels_cfg("C12/upgrade/v2-0.13.0-two-channels-same-denoms"));
+            v.push(drained_cfg("C12/upgrade/v2-0.13.0-drained-denom-with-send-in-flight", "0.13.0", false));
+            v.push(drained_cfg("C12/upgrade/v1-0.11.1-drained-denom-with-send-in-flight", "0.11.1", true));
             {
                 // same-version migrate at every reachable state
                 let mut c = cw20_cfg("C12/same-version-migrate-everywhere", Some(1), QUICK);
@@ -398,8 +452,10 @@ fn configs(prop: &str, thorough: bool) -> Vec<(Cfg, Option<usize>)> {
                     c.tokens = 2;
                     c.allow_init = allow.clone();
                     c.default_gas = *dflt;
-                    c.funds = vec![(A, T1, 1), (A, T2, 1), (A, N0, 1)];
-                    c.senders = vec![A];
+                    // the governance account itself holds the (initially unlisted) token T2 and sends it;
+                    // after UpdateAdmin it is the FORMER governance
+                    c.funds = vec![(A, T1, 1), (G, T2, 1), (A, N0, 1)];
+                    c.senders = vec![A, G];
                     c.send_toks = vec![T1, T2, N0];
                     c.send_amounts = vec![1];
                     c.proper = vec![Base::Tok(T1), Base::Tok(T2), Base::Tok(N0)];
@@ -416,8 +472,8 @@ fn configs(prop: &str, thorough: bool) -> Vec<(Cfg, Option<usize>)> {
                     c.migrate_limits = vec![None, Some(0), Some(3)];
                     if thorough {
                         // both users send, payouts to either, one payout/refund fault per history
-                        c.funds = vec![(A, T1, 1), (A, T2, 1), (A, N0, 1), (B, T2, 1)];
-                        c.senders = vec![A, B];
+                        c.funds = vec![(A, T1, 1), (G, T2, 1), (A, N0, 1), (B, T2, 1)];
+                        c.senders = vec![A, B, G];
                         c.receivers = vec![Rcv::User(B), Rcv::User(A)];
                         c.fault_bound = 1;
                         c.fault_kinds = vec![Fault::Reject, Fault::Gas];
@@ -444,7 +500,7 @@ fn configs(prop: &str, thorough: bool) -> Vec<(Cfg, Option<usize>)> {
 fn describe(prop: &str) -> (&'static str, &'static str) {
     match prop {
         "C11" => (
-            "user Transfer (native, with funds) and cw20 Send{TransferMsg} of 1-2 (thorough 1-3) tokens by A and B on either of two channels while < 2 (3) packets are in flight, with plain channel ids (channel-1/2, counterparty ends channel-71/72) and with CROSSED ids (local channel-5 <-> remote channel-15, local channel-15 <-> remote channel-5); incoming packets on either channel with denom in {proper voucher of this channel for the sent token / a never-sent token / cw20:<garbage> / cw20:<non-contract>, voucher prefix of the OTHER channel, other port, un-prefixed foreign denom, our own port/channel prefix, doubled prefix, two-part denom}, amount in {1,2,3,2^64}, receiver in {valid user(s), invalid address}, raw non-ICS20 bytes; for every packet in flight Ack(success) | Ack(error) | Ack(garbage) | Timeout in any order; payout / refund sub-call made to fail (recipient or token rejects; every gas-limited sub-call runs out of gas), at most 1 (thorough 2) faults per history",
+            "user Transfer (native, with funds) and cw20 Send{TransferMsg} of 1-2 (thorough 1-3) tokens by A and B on either of two channels while < 2 (3) packets are in flight, with plain channel ids (channel-1/2, counterparty ends channel-71/72) and with CROSSED ids (local channel-5 <-> remote channel-15, local channel-15 <-> remote channel-5); incoming packets on either channel with denom in {proper voucher of this channel for the sent token / a never-sent token / cw20:<garbage> / cw20:<non-contract>, voucher prefix of the OTHER channel, other port, un-prefixed foreign denom, our own port/channel prefix, doubled prefix, two-part denom}, amount in {1,2,3,2^64}, receiver in {valid user(s), invalid address}, memo unset or \"x\", raw non-ICS20 bytes; two channels escrowing 2^64-1 of the same denom each with returning packets of 2^64-1 / 2^64 / 2^65-2; old-layout storages incl. a drained denom (outstanding 0) with a send in flight; for every packet in flight Ack(success) | Ack(error) | Ack(garbage) | Timeout in any order; payout / refund sub-call made to fail (recipient or token rejects; every gas-limited sub-call runs out of gas), at most 1 (thorough 2) faults per history",
             "after every step, for every token: real holdings of the ics20 contract (kernel bank / cw20 Balance) >= sum over channels of Channel{id}.balances; monitor per (channel, denom): credit = escrowed by accepted transfers - really paid out (redemptions + refunds, measured as falls of the contract's real balance in steps on that channel) >= 0; a packet whose denom is not a proper voucher of this channel for a local token, or whose amount exceeds the channel balance reported before the step, or that is not ICS-20 data moves no bank or cw20 balance at all; holdings never move in governance / migrate steps",
         ),
         "C12" => (
@@ -452,7 +508,7 @@ fn describe(prop: &str) -> (&'static str, &'static str) {
             "reference per (channel, denom): outstanding = accepted sends - sends whose error-ack/timeout was processed - amounts of incoming packets answered with a success ack, compared with Channel{id}.balances after every step; total_sent never falls; per incoming packet: ibc_packet_receive never returns Err/panics; success ack => receiver's real balance rose by exactly the amount and the channel balance fell by it; error ack => ALL Channel queries, all bank and cw20 balances, Config, Admin, ListAllowed, Allowed and the packets in flight equal the pre-state; per accepted transfer: exactly one committed IbcMsg::SendPacket, by the ics20 contract, on the requested channel, data == {amount (<= 2^64-1), denom (native name | cw20:<token>), receiver, sender = paying user, memo iff requested}, timeout timestamp == block time + (requested | default) seconds, contract holdings rose and payer's balance fell by the amount; migrations leave balances alone and arrive at outstanding == escrow",
         ),
         "C18" => (
-            "initial allow lists [] | [T1:unlimited] | [T1:1] x default gas limit None | 2; Allow{T1|T2, None|0|1|3} (0 is a genuine limit) and UpdateAdmin{G|G2} by governance G, the later/former governance G2 and a stranger X; Migrate{None|0|3} at every state; cw20 transfers of T1 and T2, native transfers, and transfers of a BANK coin whose denom is literally \"cw20:<T2>\"; incoming packets redeeming them; error acks and timeouts that trigger refunds",
+            "initial allow lists [] | [T1:unlimited] | [T1:1] x default gas limit None | 2; Allow{T1|T2, None|0|1|3} (0 is a genuine limit) and UpdateAdmin{G|G2} by governance G, the later/former governance G2 and a stranger X; Migrate{None|0|3} at every state; cw20 transfers of T1 (by user A) and of T2 (by the governance account G itself, which becomes the former governance after UpdateAdmin), native transfers, and transfers of a BANK coin whose denom is literally \"cw20:<T2>\"; incoming packets redeeming them; error acks and timeouts that trigger refunds",
             "reference {gov, allow: token -> limit, default} == Admin, Config.gov_contract, Config.default_gas_limit, fully paged ListAllowed, Allowed{T1}, Allowed{T2} after every step; Allow / UpdateAdmin accepted only from the reference governance; admin, allow list and default change in no other step (migrate may set, never unset, the default); a listed token never disappears, its limit never falls, unlimited stays unlimited (checked against the reference and, independently, pre vs. post listing); a cw20 transfer is accepted only if the token is listed or a default exists; every payout / refund sub-message dispatched by the contract carries gas_limit == allow[token] if listed (None if unlimited) else the default, native payouts carry none",
         ),
         _ => ("", ""),
